@@ -58,7 +58,7 @@ def run(chk, replay=None):
 
     # directed stream first: one component of every modelled kind certainly present, in phasor analysis
     ac_kinds = [k_ for k_ in gen_netlist.DIRECTED_KINDS if k_ not in ('Cic', 'Lic', 'Kic1', 'Kic2', 'TL')]
-    plan = [(kd, j) for j in range(1 if quick else 6) for kd in ac_kinds] + [(None, 0)] * ncases
+    plan = [(kd, j) for j in range(2 if quick else 6) for kd in ac_kinds] + [(None, 0)] * ncases
     for k, (dkind, dj) in enumerate(plan):
         if dkind is not None:
             case = gen_netlist.directed_case(rng, dkind, analysis='ac', floating=(dj % 2 == 0))
